@@ -140,6 +140,16 @@ def family(tier):
         c.add(lw.Circuit(2), 0, group=True, name="empty")
     deg("empty group", empty_group)
 
+    def odd_group_name(c):
+        g = lw.Circuit(2)
+        g.bs(0)
+        try:
+            c.add(g, 0, group=True, name=7)         # if a non-string group name is accepted, the circuit must still be drawable
+        except TypeError:
+            c.add(g, 0, group=True, name="7")
+    deg("group named 7", odd_group_name)
+    deg("group named ''", lambda c: c.add(lw.Circuit(2), 0, group=True, name=""))
+
     def herald_empty_barrier(c):
         c.herald(2, 0)
         c.barrier([])
